@@ -17,7 +17,7 @@ CONSTANTS Cats,        \* categories (may be string prefixes of one another, may
           FilterNames, \* subset of the names understood by FilterDef
           Limits,      \* subset of Nat; 0 stands for "no limit"
           Randoms,     \* subset of BOOLEAN: ordered / random listing
-          Ops,         \* subset of {"get","getmeta","unknown","list","default","mutate"}
+          Ops,         \* subset of {"get","getmeta","unknown","list","default","mutate","resave"}
           MaxSaves, MaxQueries,
           Population   \* sequence of [cat, meta] already saved in the initial state
 
@@ -59,6 +59,15 @@ Query(k, i) ==
     /\ nq' = nq + 1
     /\ UNCHANGED saved
 
+\* a fetched recording is saved again under its own id (e.g. after adding metadata): it replaces itself, the store
+\* still holds one recording with that id
+Resave(i) ==
+    /\ "resave" \in Ops /\ nq < MaxQueries
+    /\ i \in 1 .. Len(saved)
+    /\ ev' = [Ev0 EXCEPT !.kind = "resave", !.id = i, !.cat = saved[i].cat, !.meta = saved[i].meta]
+    /\ nq' = nq + 1
+    /\ UNCHANGED saved
+
 \* ids that were never saved: fresh, a strict string prefix of a saved id, a saved id with a suffix, other category
 GetUnknown(u) ==
     /\ nq < MaxQueries /\ "unknown" \in Ops
@@ -92,6 +101,7 @@ Next ==
     \/ \E c \in Cats, m \in Metas : Save(c, m)
     \/ \E k \in Ops, i \in 1 .. MaxSaves : Query(k, i)
     \/ \E u \in {"fresh", "prefix", "extension", "othercat"} : GetUnknown(u)
+    \/ \E i \in 1 .. MaxSaves : Resave(i)
     \/ \E c \in Cats, fn \in FilterNames, l \in Limits, r \in Randoms : List(c, fn, l, r)
     \/ \E c \in Cats, w \in BOOLEAN, l \in Limits : ListDefault(c, w, l)
 
